@@ -141,11 +141,14 @@ def ob_array():
         bad = False
         for i in range(3):
             if present[i]:
-                e1 = sym_enum(['c0', 'c1', 'c2', 'zz'], 'a%d' % i); e2 = sym_enum(['c1', 'c2', 'zz'] + ([''] if i == 2 else []), 'b%d' % i)       # '' : an EMPTY element ('c1,,c2', a trailing comma) is not a choice either
+                e1 = sym_enum(['c0', 'c1', 'c2', 'zz'] + ([' c1'] if i == 1 else []), 'a%d' % i); e2 = sym_enum(['c1', 'c2', 'zz'] + ([''] if i == 2 else []), 'b%d' % i)       # '' : an EMPTY element ('c1,,c2', a trailing comma) is not a choice either
                 bad = sym_or(bad, e1 == 'zz', e2 == 'zz', e1 == '', e2 == '')
                 a, b = (e1.concretize() if hasattr(e1, 'concretize') else e1), (e2.concretize() if hasattr(e2, 'concretize') else e2)
-                vals[i] = [a, b]
-                dicts[i][k] = (a + ',' + b) if choose(2, 'comma%d' % i) else [a, b]
+                comma = choose(2, 'comma%d' % i)
+                # an element with surrounding white space: the comma spelling strips it (documented: 'a, b'), a real list does not - there ' c1' is not a choice
+                vals[i] = [a.strip(), b] if comma else [a, b]
+                if not comma and a != a.strip(): bad = True
+                dicts[i][k] = (a + ',' + b) if comma else [a, b]
         proj, mach, cmd = dicts
         exp = ['c0']
         for i in (0, 1, 2):
